@@ -157,3 +157,51 @@ def backref_family_for(values):
         if vs and vs <= set(f['match'] + f['nomatch']):
             return f
     return None
+
+
+def runlengths(rng):
+    """Values made of the SAME characters in the same order, differing only in how often each is repeated (three or more
+    different counts at one position), in ascending, descending or mixed order, next to a few ordinary strings."""
+    chars = rng.choice([['0', 'A'], ['a', 'b'], ['x', 'y', 'z'], ['1', '0'], ['Q', '7'], ['-', 'a']])
+    counts = rng.sample(range(1, 7), rng.choice([3, 4, 5]))
+    pos = rng.randrange(len(chars))
+    out = []
+    for c in counts:
+        out.append(''.join(ch * (c if k == pos else 1) for k, ch in enumerate(chars)))
+    order = rng.choice(['asc', 'desc', 'mixed'])
+    out.sort()
+    if order == 'desc':
+        out.reverse()
+    elif order == 'mixed':
+        rng.shuffle(out)
+    out += [rng.choice(out) for _ in range(rng.randint(0, 3))]
+    if rng.random() < 0.3:
+        out += [rstr(rng, LETTERS + DIGITS, 1, 4) + '!' for _ in range(rng.randint(1, 3))]
+    return out
+
+
+def manygroups(rng):
+    """Two or more records of one shape with 26-45 short mixed-class tokens joined by one punctuation mark: fewer than 100
+    coarse runs, but well over 100 once every token is split into its letter-case and digit runs."""
+    n = rng.choice([26, 30, 34, 40, 45, 25])
+    sep = rng.choice(['-', '/', '.', ' '])
+
+    def tok():
+        return rng.choice('ABCXYZ') + rng.choice('abcxyz') + rng.choice('0123456789')
+    recs = [sep.join(tok() for _ in range(n)) for _ in range(rng.choice([2, 2, 3]))]
+    recs += [rstr(rng, LETTERS, 1, 4) for _ in range(rng.randint(0, 3))]
+    rng.shuffle(recs)
+    return recs
+
+
+def tails(rng):
+    """Records of one shape in which two different parts each have an optional, open-ended tail of a repeated character,
+    and no record has both tails (so an expression demanding both matches nothing)."""
+    a, b, c, d = rng.sample('abcdxyz', 4)
+    sep = rng.choice('-/. :')
+    out = [a + b * rng.randint(3, 6) + sep + c, a + sep + c + d * rng.randint(3, 6)]
+    if rng.random() < 0.5:
+        out.append(a + sep + c)
+    out += [rng.choice(out) for _ in range(rng.randint(0, 2))]
+    rng.shuffle(out)
+    return out
